@@ -105,6 +105,7 @@ def run(tape, scenario):
     else:
         ec = EtherCat("sim0")
     t = None
+    t2 = [None]
 
     transfers = []
     violations = []
@@ -182,6 +183,27 @@ def run(tape, scenario):
             tr = plan()
             transfers.append(tr)
             params = {"dir": tr["dir"], "class": tr["class"], "access": tr["access"]}
+            if parallel and direction == "up" and tape.chance("c16/second-user-in-between", 30):
+                # the value was read a moment ago; then another user of this mailbox (a
+                # tool with its own Terminal object, same lock file) made a few exchanges -
+                # six of them bring the terminal's mail counter round to where it was -
+                # and now the value is read again: the same answer, and still an answer
+                try:
+                    await asyncio.wait_for(t.sdo_read(tr["index"], tr["sub"]), 2.0)
+                    if t2[0] is None:
+                        t2[0] = preinit(ec, term)
+                        od.set(0x2d00, 1, b"tool")
+                    n_between = tape.pick("c16/exchanges-in-between", [6, 6, 13, 5, 7, 1])
+                    skip_mail[0] = n_between
+                    for _ in range(n_between):
+                        await asyncio.wait_for(t2[0].sdo_read(0x2d00, 1), 2.0)
+                    skip_mail[0] = 0
+                    world.count("c16/value-read-again-after-another-users-exchanges")
+                except (asyncio.TimeoutError, EtherCatError) as e:
+                    viol("transfer-failed", f"{tr_desc(tr)}: reading it a first time, or the "
+                         f"other user's exchanges: {type(e).__name__}: {e}",
+                         exception=type(e).__name__, second_user=True, **params)
+                    return
             mail_used[0] = False
             log_from = len(server.log)
             dev_from = len(server.deviations)
